@@ -210,7 +210,7 @@ func c18ModifierGen(c *engine.C) engine.Case {
 	return func() engine.Result { return c18Eval([]*jg.Class{cls}, metas, l) }
 }
 
-var c18ClassNames = []string{"Foo", "FooUtil", "StringUtils", "UserService", "util", "Helper"}
+var c18ClassNames = []string{"Foo", "FooUtil", "StringUtils", "UserService", "util", "Helper", "ServiceUtil", "OrderServiceUtils", "UtilityService"}
 var c18Returns = []string{"return-x", "no-return", "return-null", "null-then-x", "x-then-null", "return-nullable-var", "ann-Nullable", "ann-CheckForNull", "ann-both", "ann-second-position", "return-null-string-literal"}
 
 func c18ClassGen(c *engine.C) engine.Case {
